@@ -8,6 +8,8 @@ CONSTANTS
   Residue <- HNone
   Sensitive <- HNone
   Rewriters = {}
+  HasImports <- HHasImports
+  RebuildImports = TRUE
   ResetBuf = TRUE
   ResetScratch = TRUE
   InPlaceInfo = TRUE
